@@ -8,6 +8,7 @@ import (
 
 	"pgregory.net/rapid"
 
+	"time"
 	"verif/harness"
 )
 
@@ -122,7 +123,7 @@ type c08CloseCase struct {
 	Prefix    []string `json:"prefix"` // command lines before the closing trigger (no CRLF)
 	Suffix    []string `json:"suffix"` // command lines buffered behind it, same segment
 	GateStart bool     `json:"gate_start,omitempty"`
-	Split     bool     `json:"split,omitempty"` // suffix in a second segment sent right after (still before the server reacts or not - unordered)
+	Split     bool     `json:"split,omitempty"`      // suffix in a second segment sent right after (still before the server reacts or not - unordered)
 	LogoutErr bool     `json:"logout_err,omitempty"` // the backend's Logout reports an error
 }
 
@@ -548,6 +549,90 @@ func init() {
 	})
 }
 
+// ---- Server.Close while STARTTLS is ending the plaintext session ----
+
+// c08LogoutRaceCase: the plaintext session is being logged out by a successful
+// STARTTLS (the backend's Logout is in progress, parked on a gate) when
+// Server.Close arrives on another goroutine. Whoever gets there first logs
+// the session out; the other must find nothing left to log out.
+type c08LogoutRaceCase struct {
+	Mode int      `json:"mode"`
+	Pre  []string `json:"pre"` // plaintext commands before STARTTLS
+}
+
+func c08LogoutRaceRun(c c08LogoutRaceCase) Verdict {
+	lmtp := c.Mode != 0
+	r := harness.NewRig(harness.Config{LMTP: lmtp, TLS: "starttls"}, harness.Script{LMTPSession: c.Mode == 2, GateCalls: []string{"Logout"}})
+	w, _ := r.Dial()
+	if st := w.WaitQuiet(); st != harness.QIdle {
+		r.B.ReleaseAll()
+		w.Finish()
+		return Verdict{Inconclusive: "server not idle after connect: " + st}
+	}
+	var sb strings.Builder
+	for _, l := range c.Pre {
+		sb.WriteString(l + "\r\n")
+	}
+	sb.WriteString("STARTTLS\r\n")
+	out, st := w.Exchange([]byte(sb.String()))
+	if st != harness.QIdle || !bytes.Contains(append([]byte("\r\n"), out...), []byte("\r\n220 ")) {
+		r.B.ReleaseAll()
+		w.Finish()
+		return Verdict{Inconclusive: fmt.Sprintf("STARTTLS not accepted: %s (%s)", q(out), st)}
+	}
+	if err := w.StartTLS(); err != nil {
+		r.B.ReleaseAll()
+		w.Finish()
+		return Verdict{Inconclusive: "TLS handshake: " + err.Error()}
+	}
+	// the handshake is over: the server logs the plaintext session out
+	if !r.Hub.WaitUntil(func() bool { return r.B.GateArrivedLocked("Logout0") }, harness.Watchdog) {
+		r.B.ReleaseAll()
+		w.Finish()
+		return Verdict{Inconclusive: "the plaintext session's Logout did not begin (watchdog)"}
+	}
+	closed := make(chan struct{})
+	go func() {
+		r.Srv.Close()
+		r.Hub.Lock()
+		close(closed)
+		r.Hub.Unlock()
+		r.Hub.Broadcast()
+	}()
+	// Close either finds the session taken (and returns), or starts a Logout
+	// of its own (the second one: it parks on the next gate)
+	r.Hub.WaitUntil(func() bool {
+		select {
+		case <-closed:
+			return true
+		default:
+		}
+		return r.B.GateArrivedLocked("Logout1")
+	}, 2*time.Second)
+	r.B.ReleaseAll()
+	select {
+	case <-closed:
+	case <-time.After(harness.Watchdog):
+		w.Finish()
+		return failf("close-hangs", "Server.Close did not return although the Logout in progress was released")
+	}
+	w.Finish()
+	v := Verdict{NonTrivial: true, Classes: []string{"close_during_starttls_logout"}}
+	if p := r.Log.Panicked(); p != "" {
+		return failf("panic", "server logged a panic: %s", p)
+	}
+	if bad := sessionInvariants(r.B.Events(), r.Leftover); bad != nil {
+		return *bad
+	}
+	return v
+}
+
+var c08LogoutRace *subCheck[c08LogoutRaceCase]
+
+func init() {
+	registrars = append(registrars, func() { c08LogoutRace = newSub("C08", "logout-race", c08LogoutRaceRun) })
+}
+
 func TestC08(t *testing.T) {
 	registerAll()
 	st.Rule = "cases = (conversation, cut offset, fault) for every cut offset of generated conversations; (close reason quit|errors|longline|timeout|backend panic in each callback, prefix history, suffix of commands buffered in the same segment), judged metamorphically against the same run without suffix; (history, STARTTLS with a successful or a failed handshake, history behind it); (Server.Close or Shutdown landing while NewSession/Mail/Rcpt/Data of the connection is parked on a gate, the callback returning afterwards); non-trivial = close reason with a non-empty buffered suffix OR a cut inside a transaction OR a STARTTLS session replacement; distinct = hash of the whole case"
@@ -557,6 +642,14 @@ func TestC08(t *testing.T) {
 	c08Close.rapidCheck(t, pickTier(1500, 12000), c08GenClose)
 	if t.Failed() {
 		return
+	}
+	for mode := 0; mode < 3; mode++ {
+		g := greetWord(mode != 0)
+		for _, pre := range [][]string{{g + " a"}, {g + " a", "MAIL FROM:<s@x>", "RCPT TO:<r@x>"}, {g + " a", "MAIL FROM:<s@x>", "RCPT TO:<r@x>", "BDAT 0"}} {
+			if !c08LogoutRace.one(t, c08LogoutRaceCase{Mode: mode, Pre: pre}) {
+				return
+			}
+		}
 	}
 	c08SrvClose.rapidCheck(t, pickTier(400, 4000), c08SrvCloseGen)
 	if t.Failed() {
